@@ -8,6 +8,7 @@ Helper lemmas for the whole-load theorems of C02 / C15:
 Nothing here mentions the specification; the hypotheses are explicit numeric facts.
 -/
 import ElfioVerif.Model.Load
+import ElfioVerif.Lemmas.LoadTie
 import ElfioVerif.Spec.Records
 set_option linter.unusedSimpArgs false
 set_option linter.unusedVariables false
@@ -125,7 +126,7 @@ theorem isolatedRead_eq (st : IStream) (off n : BitVec 64) :
       else (mergeFlags_ls st (((st.clear).seekg off.toInt).read n.toNat).1,
             (((st.clear).seekg off.toInt).read n.toNat).2,
             (((st.clear).seekg off.toInt).read n.toNat).1.gcount == n.toNat) := by
-  unfold isolatedRead mergeFlags_ls
+  rw [LoadTie.isolatedRead_hand]; unfold mergeFlags_ls
   split <;> rfl
 
 theorem toInt_of_lt (x : BitVec 64) (h : x.toNat < 9223372036854775808) : x.toInt = Int.ofNat x.toNat := by
@@ -218,7 +219,7 @@ def SecOutcome.reads : SecOutcome → Bool
 theorem secLoadData_snd (c : Cls) (tr : List Trans) (ls : LoadSt) (b : SecBuf) :
     (secLoadData c tr ls b).2 =
       (secOutcome c tr ls.st b.stype b.size b.offset b.streamSize b.data.isNone).apply b := by
-  unfold secLoadData secOutcome secOff
+  rw [LoadTie.secLoadData_hand]; unfold secOutcome secOff
   cases c <;> simp only [] <;>
    (split
     · rfl
@@ -236,7 +237,7 @@ theorem secLoadData_st (c : Cls) (tr : List Trans) (ls : LoadSt) (b : SecBuf) :
     (secLoadData c tr ls b).1.st =
       if (secOutcome c tr ls.st b.stype b.size b.offset b.streamSize b.data.isNone).reads
       then (isolatedRead ls.st (secOff tr b.offset) b.size).1 else ls.st := by
-  unfold secLoadData secOutcome secOff
+  rw [LoadTie.secLoadData_hand]; unfold secOutcome secOff
   cases c <;> simp only [] <;>
    (split
     · rfl
@@ -256,7 +257,7 @@ theorem secLoadData_allocs (c : Cls) (tr : List Trans) (ls : LoadSt) (b : SecBuf
       match secOutcome c tr ls.st b.stype b.size b.offset b.streamSize b.data.isNone with
       | .readFail | .loaded _ | .loadedEmpty => ls.allocs ++ [(sec64_load_data_alloc b.size).toNat]
       | _ => ls.allocs := by
-  unfold secLoadData secOutcome secOff
+  rw [LoadTie.secLoadData_hand]; unfold secOutcome secOff
   cases c <;> simp only [] <;>
    (split
     · rfl
@@ -314,7 +315,7 @@ def segApply (g : Seg) : Option (Option Bytes) → Seg × Bool
 theorem segLoadData_snd (c : Cls) (tr : List Trans) (ls : LoadSt) (g : Seg) :
     (segLoadData c tr ls g).2 = segApply g (segOutcome c tr ls.st g.stype g.filesz g.offset g.streamSize) := by
   unfold segLoadData segOutcome secOff segReadSt
-  cases c <;> simp only [] <;>
+  cases c <;> simp only [LoadTie.segDataOk_val, LoadTie.segSeekTo_val, LoadTie.segReadN_val] <;>
    (split
     · rfl
     · split
@@ -323,7 +324,7 @@ theorem segLoadData_snd (c : Cls) (tr : List Trans) (ls : LoadSt) (g : Seg) :
         · rfl
         · split
           · rfl
-          · split <;> split <;> simp_all [segApply])
+          · (repeat' split) <;> simp_all [segApply])
 
 theorem segReadSt_indep (s s' : IStream) (hd : s.data = s'.data) (hk : s.kind = s'.kind)
     (off size : BitVec 64) :
@@ -408,7 +409,9 @@ theorem secLoad_eq_ls (c : Cls) (enc : Enc) (tr : List Trans) (ls : LoadSt) (hdr
         let b := { decodeShdr c enc h.2.1 b0 with fileData := fileDataOf c tr h.1 (decodeShdr c enc h.2.1 b0) }
         if isLazy then (ls1, { b with addrSet := true })
         else ((secGetData c tr ls1 b).1, { (secGetData c tr ls1 b).2 with addrSet := true }) := by
-  unfold secLoad hdrRead_ls secInit sec64_load_eager
+  -- the two conditions of `section_impl::load` are the generated ones (Gen/SitesLoad.lean)
+  rw [LoadTie.secLoad_hand]
+  unfold hdrRead_ls secInit sec64_load_eager
   simp only [decodeShdr_isLoaded_ls]
   split
   · rfl
@@ -436,7 +439,8 @@ theorem segLoad_eq_ls (c : Cls) (enc : Enc) (tr : List Trans) (ls : LoadSt) (hdr
       let g := decodePhdr c enc (wr (List.replicate (phdrSize c) 0) 0 h.2.1) (segInit_ls h.2.2 isLazy)
       let ls1 : LoadSt := { ls with st := h.1 }
       if isLazy then (ls1, g, true) else segLoadData c tr ls1 g := by
-  unfold segLoad hdrRead_ls segInit_ls
+  rw [LoadTie.segLoad_hand]
+  unfold hdrRead_ls segInit_ls
   simp only [decodePhdr_isLoaded_ls]
   cases isLazy <;> rfl
 
@@ -761,7 +765,7 @@ theorem getString_resident (img : Bytes) (b hb : SecBuf) (x : BitVec 32)
     (hd : b.data = (secData_ls img hb).1) (hs : b.size = hb.size)
     (hin : isNullOrNobitsTy hb.stype = false → hb.offset.toNat + hb.size.toNat ≤ img.length) :
     getString b x = .ok (Spec.cstrAt (secBytes img hb) x.toNat) := by
-  unfold getString secBytes
+  rw [LoadTie.getString_hand]; unfold secBytes
   rw [hd]
   unfold secData_ls
   cases hty : isNullOrNobitsTy hb.stype
@@ -833,7 +837,7 @@ theorem segLoadData_eq_ls (c : Cls) (tr : List Trans) (ls : LoadSt) (g : Seg) :
       if !r.1.fail then (ls', { g with data := some (r.2 ++ [0]), isLoaded := true }, true)
       else (ls', { g with data := none }, false) := by
   unfold segLoadData segReadSt secOff mergeFlags_ls
-  cases c <;> simp only [] <;>
+  cases c <;> simp only [LoadTie.segDataOk_val, LoadTie.segSeekTo_val, LoadTie.segReadN_val] <;>
    (split
     · rfl
     · split
@@ -842,7 +846,7 @@ theorem segLoadData_eq_ls (c : Cls) (tr : List Trans) (ls : LoadSt) (g : Seg) :
         · rfl
         · split
           · rfl
-          · split <;> split <;> simp_all)
+          · (repeat' split) <;> simp_all)
 
 /-- `segment_impl::load_data` when the file contains the segment's range -/
 theorem segLoadData_inside (c : Cls) (ls : LoadSt) (g : Seg)
@@ -1064,7 +1068,8 @@ theorem load_eq_ls (o : Obj) (st : IStream) (isLazy : Bool) :
         let hdr := wr (Hdr.create c enc (idb EI_DATA)) 0 r2.2
         let o2 := { o1 with cls := c, enc := enc, hdr := some hdr }
         if r2.1.gcount != ehdrSize c then loadFail o2 r2.1 else loadBody o2 c enc hdr r2.1 isLazy := by
-  unfold load loadBody loadNames loadSections loadSegs loadFail
+  rw [LoadTie.load_hand]
+  unfold LoadTie.loadHand loadBody loadNames loadSections loadSegs loadFail
   simp only []
   split
   · rfl
